@@ -795,6 +795,17 @@ func evSites(r *rand.Rand, e *EVv, priv bool, out *[]site) {
 		*out = append(*out, site{tag("leaf"), func() { e.N = (e.N + 1 + r.Intn(2)) % 3 }})
 	case 'P', 'J':
 		evSites(r, e.Xs[0], priv, out)
+		if e.C == 'J' && !priv {
+			// what an interface-typed position holds, reached through one more pointer (or one fewer): `100` against a
+			// `*int` to 100 - whatever the verdict is, it is the same in both directions
+			*out = append(*out, site{"ptrwrap", func() {
+				if e.Xs[0].C == 'P' {
+					e.Xs[0] = e.Xs[0].Xs[0]
+				} else {
+					e.Xs[0] = &EVv{C: 'P', Xs: []*EVv{e.Xs[0]}}
+				}
+			}})
+		}
 	case 'Q':
 		et := elemTypes[e.Ty]
 		for _, x := range e.Xs {
@@ -1101,6 +1112,23 @@ func genEqUnit(r *rand.Rand, id, tier string) string {
 		}
 		return a.String() + " | " + b.String() + " | other"
 	}
+	if r.Intn(15) == 0 {
+		// a slice and a shorter view of the SAME backing array (x[:n-1], x[:0]): one element fewer is a difference,
+		// wherever the two slices keep their elements
+		for tries := 0; tries < 40; tries++ {
+			v := genEqLeaf(r)
+			if v.T == 'E' && v.E.C == 'Q' && !v.E.Arr && len(v.E.Xs) >= 1 {
+				keep := len(v.E.Xs) - 1
+				if r.Intn(3) == 0 {
+					keep = 0
+				}
+				y := *v.E
+				y.Xs = append([]*EVv{}, v.E.Xs[:keep]...)
+				b := V{T: 'E', E: &y}
+				return v.String() + " | " + b.String() + " | reslice"
+			}
+		}
+	}
 	a := leaf()
 	switch k := r.Intn(10); {
 	case k < 3:
@@ -1212,6 +1240,10 @@ func runEqUnit(payload string) string {
 	vb, _ := parseV(strings.Fields(parts[1]))
 	a := Build(va)
 	b := Build(vb)
+	if len(parts) > 2 && parts[2] == "reslice" {
+		// b is a shorter view of a's backing array (same capacity, as the literal says)
+		b = reflect.ValueOf(a).Slice(0, len(vb.E.Xs)).Interface()
+	}
 	return "ab=" + valEq(a, b) + " ba=" + valEq(b, a)
 }
 
